@@ -129,8 +129,13 @@ def check_C17(run):
     bl = run.rng.sample(bl, min(len(bl), 480 if thorough else 48))
     replay_validate(run, bl, ["ctxio", "-transport", "bridge"], "CtxIOTrace", io_trace_cfg(), "C17 cancellation / deadlines over a bridge subprocess",
                     nontrivial=nt, classify=io_classify("C17"), shards=16)
+    # the client API on top of the stream: receive after Send, Call, Upgrade's receive; receive context = or != send context
+    from props_tables import table_replay, TR_CFG, GEN_CFG
+    acs = run.generate("ApiCancelGen", GEN_CFG, ["ac_scen.ndjson"])["ac_scen.ndjson"]
+    table_replay(run, acs * (4 if thorough else 1), ["apicancel"], "ApiCancel", TR_CFG, "C17 client API (receive / Call / Upgrade-receive) under cancel, deadline, pre-cancelled context", shards=5,
+                 nontrivial=lambda c: '"ctxs":"other"' in c)
     run.write_evidence("model_checking",
-        "schedules as for C18 but with cancellable, pre-cancelled and deadline contexts; CANCEL placed by TLC at every quiescent instant (before the call, blocked with nothing in flight, frame partially received, data buffered); transports unix socketpair, TCP loopback, in-memory pipe, bridge subprocess (relay child; stream obtained through Connection.Upgrade); each operation's result records error class, bytes, lateness (> 2 s) and ctxio helper goroutines left; non-trivial = at least one operation returned the context error",
+        "API-level scenarios of spec/ApiCancel.tla (45: receive after Send / Call / Upgrade's receive x cancel / deadline / pre-cancelled x receive context same as or different from the send context x unix / tcp / bridge; silent scripted server; then a late frame must reach a live caller on the same connection); schedules as for C18 but with cancellable, pre-cancelled and deadline contexts; CANCEL placed by TLC at every quiescent instant (before the call, blocked with nothing in flight, frame partially received, data buffered); transports unix socketpair, TCP loopback, in-memory pipe, bridge subprocess (relay child; stream obtained through Connection.Upgrade); each operation's result records error class, bytes, lateness (> 2 s) and ctxio helper goroutines left; non-trivial = at least one operation returned the context error",
         exhaustive=False,
         assumptions=["'promptly' is one-sided: 2 s where the normal latency is well under 5 ms",
                      "on the bridge the library's reads cannot be observed, quiescence is 'nothing happened for ~30 ms'"])
